@@ -21,6 +21,7 @@ RULES = [
     Rule('C16.R3', 'bank identifiers read back equal those used at creation', 2),
     Rule('C16.R4', 'a created bank has 128 blank entries', 2),
     Rule('C16.R5', 'erase / free_slot / clear recycle slots completely', 5),
+    Rule('C16.R7', 'the instrument converters behind opn2_setInstrument / opn2_getInstrument copy every field on every path', 2),
     Rule('C16.R6', 'bucket links are updated in both directions on every path; reserve adds every new slot', 4),
 ]
 EXPLANATION = ('IR call-graph reachability (no allocation below the non-expanding insert) plus CFG order / post-dominance and AST shape rules over the '
@@ -442,4 +443,34 @@ def analyse(facts, tier):
     cap = any(assign_parts(x) and assign_parts(x)[2] == '+=' and short(strip(assign_parts(x)[0]).get('n', '')) == 'm_capacity' and show(strip(assign_parts(x)[1])) == 'need' for b, j, st in rs.cfg.stmts() for x in walk(st['s']))
     obls.append(Obl('C16.R6', rs.name, 'every new slot goes to the free list; capacity grows by the same count', rs.loc, 'discharged' if (okr and cap) else 'finding',
                     why=form if (okr and cap) else 'cannot establish that all `need` new slots are handed to the free list while the capacity grows by `need` (%s)' % form))
+    obls += r7_converters_total(facts)
     return obls
+
+
+def r7_converters_total(facts):
+    """opn2_setInstrument stores cvt_generic_to_FMIns(in) and opn2_getInstrument returns cvt_FMIns_to_generic of it: what is read back
+    equals what was written only if both converters assign every field whatever the field values are: no return before the end,
+    no field copy under a condition (the constant-trip operator loop excepted)."""
+    out = []
+    n = 0
+    for name in ('cvt_generic_to_FMIns', 'cvt_FMIns_to_generic'):
+        fns = [f for f in facts.fns.get(name, []) if f.tree is not None]
+        for fn in fns[:1]:
+            n += 1
+            early = [st for b, j, st in fn.cfg.returns()]
+            cond = []
+            for b, j, st in fn.cfg.stmts():
+                ap = assign_parts(st['s'])
+                if not ap:
+                    continue
+                gf = [f for f in guard_facts(fn, b, st, loops=False)]
+                if gf:
+                    cond.append((st['loc'], show(st['s'])[:40], ' ; '.join(fact_str(f) for f in gf)[:60]))
+            ok = not early and not cond
+            why = 'no early return, every field copy is unconditional' if ok else \
+                ('returns at %s before the remaining fields are copied: the destination keeps what it held before (an instrument written over another one reads back with the old operator data)' % early[0]['loc'].split('/')[-1] if early else
+                 'field copy %s only under [%s]' % (cond[0][1], cond[0][2]))
+            out.append(Obl('C16.R7', fn.name, 'total conversion', (early[0]['loc'] if early else cond[0][0] if cond else fn.loc), 'discharged' if ok else 'finding', why=why))
+    if n < 2:
+        raise build.AnalysisBroken('C16.R7: instrument converters not found')
+    return out
